@@ -6,6 +6,7 @@ Open Scope N_scope.
 
 Inductive shape :=
 | ShUnit | ShS (s : bytes) | ShU (n : N) | ShSU (s : bytes) (n : N) | ShAS (l : list bytes) | ShH | ShSH (s : bytes)
+| ShHH (i j : N) | ShAH (l : list N) | ShHV (i j : N)     (* several typed descriptors: indexes into a table of files; the same file (the very same fd) may occur twice *)
 | ShRaw (sg : bytes) (body : bytes) (nfds : N).
 
 (* DynamicType::signature of the Rust value that is passed to Builder::build *)
@@ -13,13 +14,29 @@ Definition shape_sig (sh : shape) : option sig :=
   match sh with
   | ShUnit => Some SUnit | ShS _ => Some SStr | ShU _ => Some SU32 | ShSU _ _ => Some (SStruct [SStr; SU32])
   | ShAS _ => Some (SArray SStr) | ShH => Some SFd | ShSH _ => Some (SStruct [SStr; SFd])
+  | ShHH _ _ => Some (SStruct [SFd; SFd]) | ShAH _ => Some (SArray SFd) | ShHV _ _ => Some (SStruct [SFd; SVariant])
   | ShRaw sg _ _ => parse_sig sg            (* Signature::try_from(&str) in build_raw_body *)
   end.
+Definition len_list {A} (l : list A) : N := N.of_nat (length l).
+
+(* the descriptors attached to the message, in order, each named by the file it refers to.  SerializerCommon::add_fd:
+   the list holds the serializer's own clones, whose numbers are never the caller's, so every OCCURRENCE of a descriptor
+   in the body is cloned and attached, and its index is its occurrence number; the size pass (FdList::Number) counts the
+   same way, so UNIX_FDS = number of occurrences = number attached. *)
+Definition shape_files (sh : shape) : list N :=
+  match sh with
+  | ShH | ShSH _ => [0]
+  | ShHH i j | ShHV i j => [i; j]
+  | ShAH l => l
+  | _ => []
+  end.
 Definition shape_nfds (sh : shape) : N :=
-  match sh with ShH | ShSH _ => 1 | ShRaw _ _ n => n | _ => 0 end.
+  match sh with ShRaw _ _ n => n | _ => len_list (shape_files sh) end.
 
 (* typed values decoded back from a message *)
-Inductive tval := TUnit | TS (s : bytes) | TU (n : N) | TSU (s : bytes) (n : N) | TAS (l : list bytes) | TFd | TSFd (s : bytes) | TNone.
+Inductive tval := TUnit | TS (s : bytes) | TU (n : N) | TSU (s : bytes) (n : N) | TAS (l : list bytes) | TFd | TSFd (s : bytes)
+| TFiles (l : list N)    (* the file each decoded descriptor refers to *)
+| TNone.
 
 (* Vec<String>: ArrayDeserializer::next_element pads to the element alignment before each element *)
 Fixpoint de_strs (fuel : nat) (e : endian) (b : bytes) (endp pos : N) (acc : list bytes) : R (list bytes) :=
@@ -37,6 +54,23 @@ Fixpoint de_strs (fuel : nat) (e : endian) (b : bytes) (endp pos : N) (acc : lis
 Definition de_fd (e : endian) (b : bytes) (pos nfds : N) : R (unit * N) :=
   let* (i, p) := de_u32 e b pos in
   if i <? nfds then Ok (tt, p) else Err EData.
+
+(* a descriptor index resolved against the attached descriptors: which file it is *)
+Definition de_fd_file (e : endian) (b : bytes) (pos : N) (files : list N) : R (N * N) :=
+  let* (i, p) := de_u32 e b pos in
+  match nth_error files (N.to_nat i) with Some f => Ok (f, p) | None => Err EData end.
+
+(* Vec<Fd> *)
+Fixpoint de_fds (fuel : nat) (e : endian) (b : bytes) (endp pos : N) (files acc : list N) : R (list N) :=
+  if pos =? endp then Ok (rev acc)
+  else
+    match fuel with
+    | O => Err EFuel
+    | S f =>
+        let* p := parse_padding b pos 4 in
+        let* (x, p') := de_fd_file e b p files in
+        if endp <? p' then Err EData else de_fds f e b endp p' files (x :: acc)
+    end.
 
 (* body().deserialize::<T>() for T chosen by the shape; the body signature is the one the message carries *)
 Definition dec_typed (sh : shape) (e : endian) (b : bytes) (off nfds : N) : R tval :=
@@ -57,5 +91,21 @@ Definition dec_typed (sh : shape) (e : endian) (b : bytes) (off nfds : N) : R tv
       let* p := parse_padding b off 8 in
       let* (s, _, p1) := de_str true e b p in
       let* _ := de_fd e b p1 nfds in Ok (TSFd s)
+  | ShHH _ _ =>
+      let* p := parse_padding b off 8 in
+      let* (x, p1) := de_fd_file e b p (shape_files sh) in
+      let* (y, _) := de_fd_file e b p1 (shape_files sh) in Ok (TFiles [x; y])
+  | ShAH _ =>
+      let* (n, p) := de_u32 e b off in
+      let* start := parse_padding b p 4 in
+      let* l := de_fds (S (length b)) e b (start + n) start (shape_files sh) [] in Ok (TFiles l)
+  | ShHV _ _ =>
+      let* p := parse_padding b off 8 in
+      let* (x, p1) := de_fd_file e b p (shape_files sh) in
+      let* (vs, vstart) := variant_sig e b p1 in
+      match vs with
+      | SFd => let* (y, _) := de_fd_file e b vstart (shape_files sh) in Ok (TFiles [x; y])
+      | _ => Err EData
+      end
   | ShRaw _ _ _ => Ok TNone
   end.
